@@ -272,6 +272,9 @@ def run_check(prop_id, tier, seed, replay=None, workers=None):  # noqa: C901, PL
                      f'{ck.get("id")}\n{logtail}'},
                 )
                 merged['viol_counts'][key] += 1
+                merged['evaluations'] += 1  # the case that killed the worker was executed
+                merged['extra']['worker-crashes'] += 1
+                merged['classes'].add(digest(('crashed-case', w['shard'], ck.get('id'))))
                 if replay:
                     continue
                 restarts += 1
@@ -336,7 +339,7 @@ def run_check(prop_id, tier, seed, replay=None, workers=None):  # noqa: C901, PL
     except Exception:  # noqa: BLE001
         traceback.print_exc()
         print('BROKEN: evidence could not be written / validated')
-        return 2
+        return exit_code or 2
     if gave_up and exit_code == 0:
         print('BROKEN: exploration stopped early after too many worker crashes')
         exit_code = 2
